@@ -39,3 +39,20 @@ pub assume_specification[ u16::div_ceil ](a: u16, b: u16) -> (r: u16)
     requires b != 0
     ensures r as int == (a as int + b as int - 1) / (b as int)
 ;
+
+pub assume_specification[ u64::div_ceil ](a: u64, b: u64) -> (r: u64)
+    requires b != 0
+    ensures r as int == (a as int + b as int - 1) / (b as int)
+;
+pub assume_specification[ u32::div_ceil ](a: u32, b: u32) -> (r: u32)
+    requires b != 0
+    ensures r as int == (a as int + b as int - 1) / (b as int)
+;
+pub assume_specification[ usize::div_ceil ](a: usize, b: usize) -> (r: usize)
+    requires b != 0
+    ensures r as int == (a as int + b as int - 1) / (b as int)
+;
+
+pub assume_specification<T>[ <[T] as core::convert::AsRef<[T]>>::as_ref ](s: &[T]) -> (r: &[T])
+    ensures r@ == s@
+;
